@@ -168,6 +168,7 @@ class ResponderSys:
         self.ref = dispatch_ref.Model()
         self.last = None
         self.closed = False
+        self.tainted = False
         if dry:
             return
         from mc import seams, vthreading as vt
@@ -282,11 +283,11 @@ class ResponderSys:
         data = osc10.encode_message(address, args)
         S.sleep(DT, exact=True)
         now = S.now
+        groups_enabled = {r.matching for r in ref.rs if r.state == 'enabled'}
         try:
             fired = ref.deliver(address, args, sender, port)
         except oscpattern.Ambiguous:
             fired = None
-        before = [(r.rid, r.state) for r in ref.rs]
         mark = len(self.log)
         del env['tap'].records[:]
         dis = []
@@ -304,6 +305,19 @@ class ResponderSys:
         obs = self.log[mark:]
         errors = [list(x) for x in env['tap'].records]
         self.last = ['msg', k, [[e[0], e[1]] for e in obs]]
+        if any(e[3] for e in errors):
+            # An exception escaped from a dispatcher: the loop over the *set*
+            # OscInterface._recv_functions was aborted, so whether the other
+            # dispatcher saw the message depends on object addresses
+            # (DESIGN.md section 6: no deterministic oracle).  From here on
+            # the library state is not a function of the history: the
+            # history is not extended (see `expand`), and the delivery is
+            # judged only when all enabled responders sit in one dispatcher
+            # (then nothing depends on the order of the set).
+            self.tainted = True
+            self.last = ['msg', k, 'address-dependent']
+            if len(groups_enabled) > 1:
+                return dis
         if fired is None:
             return dis          # meaning of the pattern is a don't-care
         detail = (f'message {[address] + list(args)} from {sender} on port '
@@ -349,12 +363,6 @@ class ResponderSys:
                     ref.rs[g['rid']].path == r.path and
                     g['created'] < f['created']]
             if errors:
-                # An exception inside one dispatcher also aborts the loop
-                # over OscInterface._recv_functions (a set): whether the
-                # *other* dispatcher had its turn depends on object
-                # addresses - no deterministic oracle (DESIGN.md section 6).
-                if not any(f['group'] in e[3] for e in errors):
-                    continue
                 kind = 'resp-missed-dispatch-error'
             elif shot:
                 kind = 'resp-missed-after-oneshot'
@@ -366,9 +374,6 @@ class ResponderSys:
             g = expd[bad[0][0]]['group']
             dis.append((f'resp-order-{g}', exp_ids, obs_ids,
                         f'demanded before: {bad}; ' + detail))
-        # a one-shot that did not fire although it had to stays enabled in the
-        # library: the states diverge, which the rules above already reported.
-        del before
         return dis
 
     # ---- state ------------------------------------------------------------------
@@ -401,6 +406,8 @@ class ResponderSys:
         return [out, cp, en, px]
 
     def key(self):
+        if self.tainted:
+            return [self.ref.key(), 'address-dependent']
         return [self.ref.key(), self._implkey()]
 
     def nontrivial(self):
@@ -860,7 +867,7 @@ def expand(job):
                 if b is None or (v['size'], core.canon(v['case'])) < \
                         (b['size'], core.canon(b['case'])):
                     viol[kind] = v
-            ok = not dis
+            ok = not dis and not getattr(t, 'tainted', False)
             cur = best.get(k)
             if cur is None:
                 best[k] = [ch2, h2, nt, ok]
@@ -1220,6 +1227,8 @@ def run_fault_case(case):
                          [list(x) for x in rlog]], detail))
         obs = {'class': cl['class'], 'fired': [x[0] for x in obs_raw],
                'over': over, 'raised': raised is not None}
+        if any(e[3] for e in errors):
+            obs['fired'] = 'address-dependent'  # see ResponderSys._deliver
     finally:
         try:
             main.remove_osc_recv_func(rawf)
@@ -1396,21 +1405,21 @@ def main(ctx):
     ctx.extra['max_steps_within_budget'] = max(ms) if ms else 0
     t0 = _timed(ctx, 'faults', t0)
     # (1) responder histories
-    depth = 4 if quick else 5
+    depth = 4 if quick else 6
     for name in sorted(RESP_PARAMS):
         run_bfs(ctx, 'resp', RESP_PARAMS[name], depth,
                 f'responders/{name}: depth {depth}')
     t0 = _timed(ctx, 'responders', t0)
     # (4) registries
-    rdepth = 5
+    d = 5 if quick else 6
     for cname in ('CmdPeriod', 'StartUp', 'ShutDown'):
-        run_bfs(ctx, 'sysact', {'cls': cname}, rdepth,
-                f'registry/{cname}: depth {rdepth}', batch=16)
+        run_bfs(ctx, 'sysact', {'cls': cname}, d,
+                f'registry/{cname}: depth {d}', batch=16)
+    d = 4 if quick else 5
     for cname in ('ServerBoot', 'ServerQuit', 'ServerTree'):
-        run_bfs(ctx, 'srvact', {'cls': cname}, rdepth if not quick else 4,
-                f'registry/{cname}: depth {rdepth if not quick else 4}',
-                batch=16)
-    run_bfs(ctx, 'notif', {}, rdepth if not quick else 4,
-            f'registry/NotificationCenter: depth '
-            f'{rdepth if not quick else 4}', batch=16)
+        run_bfs(ctx, 'srvact', {'cls': cname}, d,
+                f'registry/{cname}: depth {d}', batch=16)
+    d = 4 if quick else 6
+    run_bfs(ctx, 'notif', {}, d,
+            f'registry/NotificationCenter: depth {d}', batch=16)
     _timed(ctx, 'registries', t0)
